@@ -22,6 +22,9 @@ pub struct DispCase {
     /// block 2 is an output header (O…) instead of an input header
     #[serde(default)]
     pub output_header: bool,
+    /// the body comes from the rule-relevant generator: acceptance is not demanded, only agreement
+    #[serde(default)]
+    pub rule_body: bool,
 }
 
 impl DispCase {
@@ -58,6 +61,21 @@ pub fn body(mt: &str, k: u64, seed: u64) -> Option<String> {
     Some(s)
 }
 
+/// k-th deterministic rule-relevant body of a type: built by the C04 generator, so that most of them
+/// violate one or several network rules (the validate entry points must agree on those too)
+pub fn rule_body(mt: &str, k: u64, seed: u64) -> String {
+    let data: Vec<u32> = (0..1500)
+        .map(|i| splitmix(seed ^ 0x5eed ^ (k * 104729 + i)) as u32)
+        .collect();
+    let mut src = Src::new(&data);
+    let m = crate::props::c04::gen_rule_msg(mt, &mut src);
+    let mut s = String::new();
+    for f in &m.fields {
+        s.push_str(&format!(":{}:{}\n", f.tag, f.content));
+    }
+    s
+}
+
 fn supported(code: &str) -> bool {
     MSGS.iter().any(|m| m.mt == code)
 }
@@ -79,7 +97,7 @@ pub fn oracle(c: &DispCase, obs: &mut Obs) -> Vec<Violation> {
             }
         } else {
             obs.class("typed:match");
-            if c.body_mt == c.announced {
+            if c.body_mt == c.announced && !c.rule_body {
                 if let Err(e) = r {
                     if !e.is_panic() {
                         out.push(viol(
@@ -303,7 +321,7 @@ pub fn oracle(c: &DispCase, obs: &mut Obs) -> Vec<Violation> {
             }
         }
         (Err(_), Err(e)) => {
-            if c.announced == c.body_mt && !e.is_panic() {
+            if c.announced == c.body_mt && !c.rule_body && !e.is_panic() {
                 out.push(viol(
                     format!("C12|typed|MT{}|rejected", c.announced),
                     format!("valid message rejected: {}\n{}", e.text(), x),
@@ -315,9 +333,10 @@ pub fn oracle(c: &DispCase, obs: &mut Obs) -> Vec<Violation> {
 }
 
 pub fn run(ctx: &Ctx) {
-    ctx.add_rule("enumerated: for each of the 30 types, K valid bodies (K=5 quick, 16 thorough; the first minimal, the second with every optional field present), input and output application headers x all 30 requested types through parse::<T>, x all 1000 three-digit codes in block 2 through parse_auto / parse_mt / validate_mt / publish_mt and ParsedSwiftMessage accessors; non-trivial = all; distinct by (announced, requested, text)");
+    ctx.add_rule("enumerated: for each of the 30 types, K valid bodies (K=5 quick, 16 thorough; the first minimal, the second with every optional field present), input and output application headers x all 30 requested types through parse::<T>, x all 1000 three-digit codes in block 2 through parse_auto / parse_mt / validate_mt / publish_mt and ParsedSwiftMessage accessors; plus 40 (thorough 400) rule-relevant bodies per type from the C04 generator (most violate network rules) through the typed, auto-detecting and plugin entry points of their own type; non-trivial = all; distinct by (announced, requested, text)");
     ctx.exhaustive("30 x 30 (announced, requested) pairs; all 1000 type codes per body");
     let k = ctx.n(5, 16) as u64;
+    let kr = ctx.n(40, 400) as u64;
     let seed = ctx.seed;
     let to_json = |c: &DispCase| serde_json::to_value(c).unwrap();
     ctx.run_enumerated(
@@ -339,6 +358,7 @@ pub fn run(ctx: &Ctx) {
                             requested: u.mt.to_string(),
                             body: b.clone(),
                             output_header,
+                            rule_body: false,
                         });
                     }
                 }
@@ -353,6 +373,29 @@ pub fn run(ctx: &Ctx) {
                         requested: String::new(),
                         output_header: code % 2 == 1,
                         body: b.clone(),
+                        rule_body: false,
+                    });
+                }
+            }
+            // rule-violating bodies: own type only, typed + auto + plugins, both header forms
+            for j in 0..kr {
+                let b = rule_body(mt, j, seed);
+                for output_header in [false, true] {
+                    v.push(DispCase {
+                        body_mt: mt.to_string(),
+                        announced: mt.to_string(),
+                        requested: mt.to_string(),
+                        body: b.clone(),
+                        output_header,
+                        rule_body: true,
+                    });
+                    v.push(DispCase {
+                        body_mt: mt.to_string(),
+                        announced: mt.to_string(),
+                        requested: String::new(),
+                        body: b.clone(),
+                        output_header,
+                        rule_body: true,
                     });
                 }
             }
